@@ -4,6 +4,7 @@ import VlsModel.Gen.FnChanId
 import VlsModel.Gen.FnDerive
 import VlsModel.Gen.FnDeriveKeys
 import VlsModel.Gen.FnKeysMgr
+import VlsModel.Gen.FnDeriveLdk
 import VlsModel.Gen.FnChannel
 import VlsModel.Lemmas.FnGen
 /-
@@ -700,5 +701,72 @@ theorem C18_fn_seed_secrets (hkdf : List Nat → List Nat → List Nat → List 
   · simp only [MyKeysManager.derive_secret, bind_pure]
 
 end KeysMgr
+
+
+/-! ## derive.rs (round 9): `LdkKeyDerive::channel_keys` (`Gen/FnDeriveLdk.lean`, `translate/fn_targets/DeriveLdk.b1819.json`)
+
+The body defines a local macro (`key_step!`); the target file declares the normalisation rules that delete the definition
+and expand its five invocations textually (each rule must apply exactly the declared number of times, otherwise the
+function is not translated and the theorem below does not build).  The SHA-256 engine is an opaque value with the
+declared externals `Sha256::engine`, `input` (receiver-updating), `from_engine`. -/
+section DeriveLdk
+open VlsModel.Gen.FnDeriveLdk
+
+theorem ofN_append (a b : List Nat) : ofN (a ++ b) = ofN a ++ ofN b := by simp [ofN]
+
+theorem slice_full {α : Type} (l : List α) : Rs.slice l 0 l.length = .ok l := by
+  simp [Rs.slice]
+
+/-- the hash engine as the byte string it has been fed, hashed by `from_engine` -/
+def shaN (s : List Nat) : List Nat := toN (Sha256.sha256 (ofN s))
+
+/-- `ChildNumber::from_hardened_idx`: refuses indices ≥ 2^31 (rust-bitcoin) -/
+def hardIdx (n : Nat) : Option Nat := if n < 2 ^ 31 then some n else none
+
+/-- **C18_fn_ldk_channel_keys.** the regenerated body of `LdkKeyDerive::channel_keys` (the local macro `key_step!`
+    expanded by declared normalisation rules) is the model's `ldkChanKeysFn`: instantiate the hash engine by the bytes it
+    is fed (`input` = append, `from_engine` = SHA-256 of them), `from_hardened_idx` by its range check, and let
+    `derive_priv` deliver what the BIP32 oracle `child` says for `m/3'/idx'`; then the generated function returns exactly
+    the six secrets of the model (and panics exactly where the model says `none`: a keys id whose first eight bytes read
+    ≥ 2^31).  Read from the source: the order `keys_id ‖ seed ‖ child key` of the channel seed, the six labels, the chain
+    commitment seed → funding → revocation → payment → delayed → htlc, and the order of the result tuple. -/
+theorem C18_fn_ldk_channel_keys {Ctx : Type} (child : Bytes → Net → Nat → Bytes) (net : Net)
+    (dp : Xpriv (List Nat) → Ctx → List Nat → Option (Xpriv (List Nat)))
+    (self : LdkKeyDerive) (seed kid : Bytes) (bi : Nat) (mk cm : Xpriv (List Nat)) (ctx : Ctx)
+    (hk : 8 ≤ kid.length)
+    (h3 : dp mk ctx [3] = some cm)
+    (hc : dp cm ctx [be64 kid] = some ⟨toN (child seed net (be64 kid))⟩) :
+    LdkKeyDerive.channel_keys (fun l => .ok (be64 (ofN l))) ([] : List Nat) (fun s x => s ++ x) hardIdx dp id shaN id id some
+        self (toN seed) (toN kid) bi mk ctx
+      = (match ldkChanKeysFn child ⟨seed, net, kid, bi⟩ with
+         | some s => .ok (toN s.funding, toN s.revocation, toN s.htlc, toN s.payment, toN s.delayed, toN s.commitmentSeed)
+         | none => .error .panic) := by
+  have l1 : ofN [99, 111, 109, 109, 105, 116, 109, 101, 110, 116, 32, 115, 101, 101, 100] = strBytes "commitment seed" := by decide +kernel
+  have l2 : ofN [102, 117, 110, 100, 105, 110, 103, 32, 107, 101, 121] = strBytes "funding key" := by decide +kernel
+  have l3 : ofN [114, 101, 118, 111, 99, 97, 116, 105, 111, 110, 32, 98, 97, 115, 101, 32, 107, 101, 121] = strBytes "revocation base key" := by decide +kernel
+  have l4 : ofN [112, 97, 121, 109, 101, 110, 116, 32, 107, 101, 121] = strBytes "payment key" := by decide +kernel
+  have l5 : ofN [100, 101, 108, 97, 121, 101, 100, 32, 112, 97, 121, 109, 101, 110, 116, 32, 98, 97, 115, 101, 32, 107, 101, 121] = strBytes "delayed payment base key" := by decide +kernel
+  have l6 : ofN [72, 84, 76, 67, 32, 98, 97, 115, 101, 32, 107, 101, 121] = strBytes "HTLC base key" := by decide +kernel
+  have hsl : Rs.slice (toN kid) 0 8 = .ok (toN (kid.take 8)) := by
+    have : ¬ kid.length < 8 := by omega
+    simp [Rs.slice, this, toN, List.map_take]
+  have hbe : be64 (ofN (toN (kid.take 8))) = be64 kid := by
+    rw [ofN_toN]; simp [be64, List.take_take]
+  simp only [LdkKeyDerive.channel_keys, hsl, Rs.bind_ok, hbe]
+  by_cases hlt : be64 kid < 2 ^ 31
+  · have hle : be64 kid ≤ Rs.U32_MAX := by simp [Rs.U32_MAX]; omega
+    have htr : Rs.utrunc Rs.U32_MAX (be64 kid) = be64 kid := by
+      simp [Rs.utrunc, Rs.U32_MAX]; omega
+    have hge : ¬ be64 kid ≥ 2 ^ 31 := by omega
+    simp [Rs.assert, hle, hardIdx, Rs.unwrap, h3, htr, hlt, hc, ldkChanKeysFn, hge, shaN, ofN_append, ofN_toN,
+      l1, l2, l3, l4, l5, l6, slice_full]
+  · have hge : be64 kid ≥ 2 ^ 31 := by omega
+    by_cases hle : be64 kid ≤ Rs.U32_MAX
+    · have htr : Rs.utrunc Rs.U32_MAX (be64 kid) = be64 kid := by
+        simp [Rs.utrunc, Rs.U32_MAX] at hle ⊢; omega
+      simp [Rs.assert, hle, hardIdx, Rs.unwrap, h3, htr, hlt, ldkChanKeysFn, hge, Rs.panic]
+    · simp [Rs.assert, hle, ldkChanKeysFn, hge, Rs.panic]
+
+end DeriveLdk
 
 end VlsModel.Props.C18Fn
